@@ -126,6 +126,9 @@ CURATED_TEXT = {
 'choice_ret_committed': "token A B C D; start s; s: r D; r: A* (B ~ & C ^ / B D);",
 'choice_ret_second': "token A B C D; start s; s: r D; r: A (B C / & B ^);",
 'choice_ret_inner_rule': "token A B C D; start s; s: (r C / r D) D; r: A & B;",
+'ret_after_rule': "token A B C; start s; s: x*; x: y & B; y: A;",
+'ret_in_choice_after_token': "token A B C D E; start s; s: x E; x: (A & B D / A E) C;",
+'ret_in_loop_body': "token A B C; start s; s: x C; x: A (B & A)*;",
 'unused_rule': "token A B; start s; s: A; u: B u | A;",
 'unused_rule_referencing': "token A B C; start s; s: A x; x: B; u: x C;",
 'pred_twice': "token A B C; start s; s: (?1 A | B) (?1 A | C);",
@@ -138,6 +141,14 @@ CURATED_TEXT = {
 # candidates that the UNCHANGED lelwel rejects for a reason one of the properties relies on; if a changed sema lets one
 # through, its emitted parser is explored like any other grammar
 NEAR_MISS_TEXT = {
+# return before the rule has consumed a token (rejected as E037 since fix F14): a loop around such a rule never terminates
+'nm_ret_head_in_loop': "token A B; start s; s: x*; x: & A B;",
+'nm_ret_head_in_loop_follow': "token A B C; start s; s: x* C; x: & A B;",
+'nm_ret_head_in_plus': "token A B C; start s; s: C x+ C; x: & A B;",
+'nm_ret_head_in_opt': "token A B C; start s; s: C [x] C; x: & A B;",
+'nm_ret_head_nested_rule': "token A B C; start s; s: (y C)*; y: x; x: & A B;",
+'nm_ret_after_nullable': "token A B C; start s; s: x*; x: [C] & A B;",
+'nm_ret_after_nullable_rule': "token A B C; start s; s: x*; x: y & B; y: [A];",
 # return operator inside an alternative that can still be abandoned (rejected as E036 since fix F12)
 'nm_choice_ret_first': "token A B C D Ws; skip Ws; start s; s: r D; r: A* (& B ^ / B C);",
 'nm_choice_ret_first_plain': "token A B C D; start s; s: r D; r: A (& B / B C);",
